@@ -190,3 +190,54 @@ func VerifC17WritersAndReplication() {
 	}
 	vstub.Assert(inLog(r, remote), "C05 the replicated entry is still there after restart and load")
 }
+
+// VerifC17Callbacks: concurrent writers that pass a PROGRESS CHANNEL
+// (AddOperation's onProgressCallback), unbuffered, drained by one collector in a
+// fixed order: every schedule with at most P preemptions.  Every call returns,
+// each appended exactly one distinct entry, each channel received exactly its own
+// call's entry, all are in log and view.
+func VerifC17Callbacks() {
+	w := vstub.Param("W", 2)
+	p := vstub.Param("P", 1)
+	blocks := vstub.NewBlocks(nil)
+	b, _ := newReplica("a", blocks, false)
+	if b == nil {
+		return
+	}
+	ctx := context.Background()
+	chans := make([]chan ipfslog.Entry, w)
+	entries := make([]ipfslog.Entry, w)
+	got := make([]ipfslog.Entry, w)
+	errs := make([]error, w)
+	for k := range chans {
+		chans[k] = make(chan ipfslog.Entry)
+	}
+	vstub.ExploreSchedules(p)
+	var wg sync.WaitGroup
+	for k := 0; k < w; k++ {
+		wg.Add(1)
+		go func(k int) {
+			defer wg.Done()
+			entries[k], errs[k] = b.AddOperation(ctx, operation.NewOperation(nil, "ADD", []byte{'c', byte(k)}), chans[k])
+		}(k)
+	}
+	// the collector takes the entries in a fixed order of its own
+	for k := 0; k < w; k++ {
+		got[k] = <-chans[k]
+	}
+	wg.Wait()
+	vstub.ExploreSchedules(0)
+	vstub.Cover("callbacks-delivered")
+	for k := 0; k < w; k++ {
+		vstub.Assert(errs[k] == nil && entries[k] != nil, "C17 a concurrent write with a progress channel succeeds")
+		if errs[k] != nil || entries[k] == nil {
+			return
+		}
+		vstub.Assert(got[k] != nil && got[k].GetHash().Equals(entries[k].GetHash()), "C17 a progress channel receives the entry of ITS call")
+		for j := 0; j < k; j++ {
+			vstub.Assert(!entries[k].GetHash().Equals(entries[j].GetHash()), "C17 each call with a progress channel appended a distinct entry")
+		}
+		vstub.Assert(inLog(b, entries[k]) && inView(b, entries[k]), "C17 every acknowledged entry is in log and view (progress channels)")
+	}
+	vstub.Assert(b.OpLog().Len() == w, "C17 exactly one entry per call (progress channels)")
+}
